@@ -19,7 +19,7 @@ import numpy as np
 
 import sim  # noqa: F401
 from sim import build
-from sim.core import attempt, exc_tag
+from sim.core import attempt, deep_tier, exc_tag
 from sim.oracle import carry_over, first_diff, hist_arrays, missed_tuple, wellformed_problems
 
 PROPERTY = "C18"
@@ -85,6 +85,9 @@ def generate(rng, seed, part):
     ops = []
     n = rng.randint(2, 14)
     n_inv = rng.randint(1, 5)
+    if deep_tier(rng):
+        n = rng.randint(15, 40)
+        n_inv = rng.randint(3, 12)
     inv_at = set(rng.sample(range(n), min(n, n_inv)))
     for k in range(n):
         if k in inv_at:
